@@ -1,6 +1,6 @@
 """C10: every setting crypt_gensalt* produces is accepted by crypt and kept in the hash."""
 from vf.core import Query
-from .methods import BY_NAME, CRYPT_C
+from .methods import bf_core_query, BY_NAME, CRYPT_C
 from .common import GENSALT_UNITS, lib_loops, cstr
 from .C13 import queries as c13_queries
 
@@ -54,4 +54,5 @@ def queries(tier, seed, build):
         q.replay_kind = "gensalt"
         q.replay_prefix = prefix
         qs.append(q)
+    qs.append(bf_core_query('c10-bcrypt-core'))
     return qs
